@@ -165,24 +165,58 @@ example : entNmArr (.fixed 64) (some 64) 63 = .ok () := by
   have := mem_copyWrites hi
   simp at this; omega
 
-/-- `nms` receives what `entNmArr` holds: safe when the part loop is guarded below `nms`'s capacity -/
-theorem nms_safe {st : Storage} {guard : Option Nat} (h : copySafe st guard = true) (parts : Nat) :
-    NoOverflow (nms st guard parts) := by
-  cases st with
-  | growable => exact noOverflow_growable _
-  | fixed cap =>
-    cases guard with
-    | none => simp [copySafe] at h
-    | some g =>
-      simp [copySafe] at h
-      apply runWrites_noOverflow_iff.mpr
-      intro i hi
-      have := mem_copyWrites hi
-      simp [entNmArrStored] at this
-      omega
+/-! ### the two-site invariant `caller's maximum part count ≤ callee capacity − 1`
 
-theorem C05_no_overflow_nms : ∀ parts, NoOverflow (nms C05.nmsStorage C05.entNmArrGuard parts) :=
-  fun parts => nms_safe (by decide) parts
+`STEPcomplex( Registry *, const std::string ** names, … )` copies `names` into `char * nms[cap]` until the NULL entry and
+then stores the terminator; nothing in the constructor bounds the index unless its loop has a guard of its own.  Its only
+in-tree caller (`CreateSubSuperInstance`) caps the number of names it collects.  Both values are regenerated. -/
+
+/-- the bound that is effective on the number of names `nms` receives -/
+def nmsEffectiveBound : Option Nat → Option Nat → Option Nat
+  | some g, some m => some (min g m)
+  | some g, none => some g
+  | none, some m => some m
+  | none, none => none
+
+theorem nmsWrites_eq (calleeGuard callerMax : Option Nat) (parts : Nat) :
+    nmsWrites calleeGuard callerMax parts = copyWrites (nmsEffectiveBound calleeGuard callerMax) parts := by
+  cases calleeGuard <;> cases callerMax <;>
+    simp [nmsWrites, copyWrites, entNmArrStored, nmsEffectiveBound, Nat.min_assoc, Nat.min_comm]
+  all_goals (rename_i g m; rw [Nat.min_left_comm]; simp)
+
+/-- `nms` is free of overflow for every number of parts **iff** the array is growable or the effective bound —
+the callee's own loop guard, else the caller's maximum part count — is at most `capacity − 1`. -/
+theorem C05_nms_two_site_iff (st : Storage) (calleeGuard callerMax : Option Nat) :
+    (∀ parts, NoOverflow (nms st calleeGuard callerMax parts))
+      ↔ copySafe st (nmsEffectiveBound calleeGuard callerMax) = true := by
+  rw [← copy_safe_iff]
+  simp only [nms, nmsWrites_eq]
+
+/-- the invariant in the form the integrator asked for: with a fixed array and no guard in the constructor, safety for
+all inputs is exactly `caller's maximum part count ≤ capacity − 1` (and fails when the caller has no cap) -/
+theorem C05_nms_caller_cap_iff (cap : Nat) (callerMax : Option Nat) :
+    (∀ parts, NoOverflow (nms (.fixed cap) none callerMax parts))
+      ↔ ∃ m, callerMax = some m ∧ 0 < cap ∧ m ≤ cap - 1 := by
+  rw [C05_nms_two_site_iff]
+  cases callerMax with
+  | none => simp [nmsEffectiveBound, copySafe]
+  | some m => simp [nmsEffectiveBound, copySafe]; omega
+
+theorem C05_no_overflow_nms :
+    ∀ parts, NoOverflow (nms C05.nmsStorage C05.nmsLoopGuard C05.entNmArrGuard parts) :=
+  (C05_nms_two_site_iff _ _ _).mpr (by decide)
+
+/-- the cap removed at the caller (seeded regression C05-a1: names collected in a `std::vector`), constructor unchanged:
+a complex instance with `cap` parts writes `nms[cap]` — predicted threshold = the callee's capacity (8193) -/
+theorem C05_nms_uncapped_witness (cap : Nat) : nms (.fixed cap) none none cap = .overflow cap cap := by
+  unfold nms nmsWrites entNmArrStored
+  exact copy_unguarded_overflow (Nat.le_refl _)
+
+example : nms (.fixed 8193) none (some 64) 100000 = .ok () := by
+  apply runWrites_ok
+  intro i hi
+  have := mem_copyWrites hi
+  simp [entNmArrStored] at this; omega
 
 /-! ## sprintf into fixed arrays -/
 
